@@ -192,13 +192,17 @@ CLAIMED = {
                 "records denote followed by at most one UnexpectedEof), C11_crash_prefix (their composition: on every crash "
                 "state of the .shp a reader without index fails to open or yields a prefix of the written shapes - never a "
                 "shape that was not written, never a reordered one, never a panic), C11_torn_length_monotone (L4: a length "
-                "field torn between an earlier finalize's value and a larger one reads >= the earlier value). Tie: the real "
+                "field torn between an earlier finalize's value and a larger one reads >= the earlier value), C11_torn_header (a header "
+                "slot torn at any byte between two headers of the same file is a well-formed header declaring at least the older "
+                "length), C11_committed_states + C11_committed_readable (the last clause: after a finalize completed with shapes ss0, "
+                "on EVERY later crash state - any byte cut of any later write or finalize - a reader without index opens the file "
+                "and yields at least ss0, still a prefix of the shapes written). Tie: the real "
                 "traces equal the model's; the real reader is run on EVERY operation-prefix pair sampled across both "
                 "destinations and on byte cuts, with and without index, and compared with the model; oracle incl. 'everything "
                 "before a completed finalize stays readable'.",
         "note": COMMON_NOTE + "The crash model is the property's own (prefix of issued operations per destination); OS write-back "
-                "reordering is outside it. The with-index route and the committed-stays-readable clause are decided by the "
-                "correspondence + oracle over all cuts of bounded workloads (partial: theorems cover the no-index route and L4).",
+                "reordering is outside it. PARTIAL: the with-index route is decided by the correspondence + oracle over all cuts of "
+                "bounded workloads; theorems cover the reader without index (prefix clause and committed-stays-readable clause).",
         "technique": "Coq proof (invariant over byte-exploded operation traces of the writer; reader theorem for arbitrary "
                      "headers over record-stream prefixes; composition) + exhaustive cut enumeration through the real reader",
         "design_ref": "DESIGN.md section 7 (C11)",
